@@ -40,6 +40,7 @@ type scripted struct {
 	mu     sync.Mutex
 	id     int
 	script []string // ok | recov | unrecov | hang-retry | hang-noretry ; exhausted = recov
+	okFrom int64 // != 0: time-based outage instead of the script: recov before this instant (unix ns), ok from it on
 	calls  []call
 	onCall func(id int, at int64, outcome string) // event trace (fanout engine)
 }
@@ -52,6 +53,12 @@ func (s *scripted) Notify(ctx context.Context, alerts ...*types.Alert) (bool, er
 		o = s.script[k]
 	}
 	at := time.Now().UnixNano()
+	if s.okFrom != 0 {
+		o = "recov"
+		if at >= s.okFrom {
+			o = "ok"
+		}
+	}
 	s.calls = append(s.calls, call{at: at, outcome: o, alerts: alerts})
 	if s.onCall != nil {
 		s.onCall(s.id, at, o)
@@ -162,6 +169,7 @@ type RetryCase struct {
 	DeadlineOff  int64    `json:"deadline_off"` // ns after the start at which the context is done
 	Cancel       bool     `json:"cancel"`       // context cancelled at that instant instead of a deadline
 	Script       []string `json:"script"`
+	OutageEnd    int64    `json:"outage_end,omitempty"` // > 0: the script is time-based: every attempt before start+outage_end fails recoverably, later ones succeed
 	// observed
 	Start    int64        `json:"start,omitempty"`
 	Attempts []AttemptObs `json:"attempts,omitempty"`
@@ -186,6 +194,24 @@ func genRetry(r *vh.Rand, env vh.Env) Case {
 		rc.FiringCtx = 1 + r.Intn(2) // a firing set that disagrees with the batch
 	case 2:
 		rc.FiringCtx = 0
+	}
+	if r.Chance(1, 9) {
+		// long flush deadlines (routes with a long group_interval) and long outages: retrying must go on until
+		// the deadline, however far away it is; virtual time makes hours free
+		rc.DeadlineOff = vh.Pick(r, []int64{int64(16 * time.Minute), int64(20 * time.Minute), int64(20 * time.Minute), int64(time.Hour), int64(time.Hour), int64(6 * time.Hour)})
+		rc.FiringCtx = -2
+		for i := range rc.Alerts {
+			rc.Alerts[i].HasEnd = false // all firing
+		}
+		switch r.Intn(5) {
+		case 0, 1: // the outage never ends
+			rc.Script = nil
+		case 2: // the outage ends shortly before the deadline: delivery must still happen
+			rc.Script, rc.OutageEnd = nil, rc.DeadlineOff-vh.Pick(r, []int64{int64(95 * time.Second), int64(2 * time.Minute), int64(5 * time.Minute)})
+		case 3: // ... or somewhere past the first quarter hour
+			rc.Script, rc.OutageEnd = nil, int64(15*time.Minute)+int64(r.Intn(int((rc.DeadlineOff-int64(15*time.Minute))/int64(time.Second))))*int64(time.Second)
+		default: // scripted as usual
+		}
 	}
 	rc.Cancel = rc.DeadlineOff > 0 && r.Chance(1, 5)
 	return Case{Engine: "retry", Retry: rc}
@@ -264,6 +290,9 @@ func runRetry(t *testing.T, c *Case) result {
 	synctest.Test(t, func(t *testing.T) {
 		start := time.Now()
 		rc.Start = start.UnixNano()
+		if rc.OutageEnd > 0 {
+			sn.okFrom = rc.Start + rc.OutageEnd
+		}
 		alerts = mkAlerts(rc.Alerts, start)
 		integ := notify.NewIntegration(sn, sendResolved(rc.SendResolved), "scripted", 0, "team")
 		stage := notify.NewRetryStage(integ, "team", notify.NewMetrics(prometheus.NewRegistry(), featurecontrol.NoopFlags{}), eventrecorder.NopRecorder())
@@ -330,6 +359,12 @@ func runRetry(t *testing.T, c *Case) result {
 	for i, o := range rc.Script {
 		scr[i] = coqOutcome(o)
 	}
+	if rc.OutageEnd > 0 { // time-based script: the k-th outcome is a function of the k-th tick instant (the oracle input)
+		scr = nil
+		for _, a := range rc.Attempts {
+			scr = append(scr, coqOutcome(a.Outcome))
+		}
+	}
 	res.term = vh.App("CRetry", vh.Bool(rc.SendResolved), nfTerm, coqAlerts(rc.Alerts, allIdx(len(rc.Alerts)), rc.Start),
 		vh.Z(rc.Start), vh.Z(dl), vh.List(scr), vh.List(atts), coqAlerts(rc.Alerts, sent, rc.Start), coqErr(rc.Err, rc.Last),
 		coqAlerts(rc.Alerts, rc.Out, rc.Start), vh.Z(rc.End))
@@ -390,6 +425,12 @@ func runRetry(t *testing.T, c *Case) result {
 				viol("retry-tick-before-deadline-not-attempted", fmt.Sprintf("%v between the last attempt and the deadline, longer than the longest backoff interval %v", time.Duration(dl-lastA.At), hi))
 			}
 		}
+		// an outage that ends more than the longest backoff interval (60s x 1.5) before the deadline: a tick
+		// occurs between its end and the deadline, so the notification must still be delivered
+		if rc.OutageEnd > 0 && time.Duration(rc.DeadlineOff-rc.OutageEnd) > 91*time.Second && (lastA.Outcome != "ok" || err != nil) {
+			viol("retry-outage-ended-before-deadline-not-delivered", fmt.Sprintf("outage ended %v before the flush deadline (%v after the start) but the last of %d attempts came %v after the start and the stage returned %q",
+				time.Duration(rc.DeadlineOff-rc.OutageEnd), time.Duration(rc.DeadlineOff), n, time.Duration(lastA.At-rc.Start), rc.Err))
+		}
 	} else if rc.FiringCtx != -1 {
 		nothing := !rc.SendResolved && (rc.FiringCtx == 0 || (rc.FiringCtx == -2 && len(wantSent) == 0))
 		switch {
@@ -407,7 +448,14 @@ func runRetry(t *testing.T, c *Case) result {
 	}
 
 	// histograms
-	res.tags = append(res.tags, fmt.Sprintf("attempts/%02d", n), "result/"+map[string]string{"": "ok", "unrecov": "unrecoverable", "canceled": "canceled", "other": "other-error"}[rc.Err])
+	nb := fmt.Sprintf("%02d", n)
+	switch {
+	case n >= 100:
+		nb = "100+"
+	case n > 16:
+		nb = "17-99"
+	}
+	res.tags = append(res.tags, "attempts/"+nb, "result/"+map[string]string{"": "ok", "unrecov": "unrecoverable", "canceled": "canceled", "other": "other-error"}[rc.Err])
 	if rc.Err == "canceled" {
 		if rc.Last == 0 {
 			res.tags = append(res.tags, "canceled-wraps/context-error")
@@ -428,6 +476,17 @@ func runRetry(t *testing.T, c *Case) result {
 	}
 	if len(wantSent) < len(rc.Alerts) && n > 0 {
 		res.tags = append(res.tags, "filter/resolved-dropped")
+	}
+	switch {
+	case rc.DeadlineOff > int64(15*time.Minute) && rc.OutageEnd > 0:
+		res.tags = append(res.tags, "long-deadline/outage-ends-before-deadline")
+	case rc.DeadlineOff > int64(15*time.Minute) && len(rc.Script) == 0:
+		res.tags = append(res.tags, "long-deadline/outage-never-ends")
+	case rc.DeadlineOff > int64(15*time.Minute):
+		res.tags = append(res.tags, "long-deadline/scripted")
+	}
+	if n > 0 && rc.Attempts[n-1].At-rc.Start > int64(15*time.Minute) {
+		res.tags = append(res.tags, "last-attempt/more-than-15min-after-start")
 	}
 	res.nontrivial = n >= 2 || (n == 1 && rc.Attempts[0].Outcome != "ok")
 	return res
